@@ -59,7 +59,7 @@ SPEC = {
                "TestBoundaryContention/contended_nested": 0.06,
                "TestBoundaryContention/shared_small_parts_yield_between_locks": 0.22,
                "TestBoundaryContention/shared_small_parts_plain_scheduling": 0.07,
-               "TestBoundaryContention/shared_small_parts_live": 0.08,
+               "TestBoundaryContention/shared_small_parts_live": 0.056,
                "TestMultiPool/pool_finished_gun_setup_after_another_pool_had_fired": 0.25,
                "TestMultiPool/pool_finished_gun_setup_in_the_middle_of_another_pools_shooting": 0.15,
                "TestMultiPool/two_or_more_pools_fired": 0.25, "TestMultiPool/pools_3": 0.1},
